@@ -680,6 +680,42 @@ def translate(repo):
             first_or_err([c for (c, _) in if_conditions(pack) if "isPublic" in c], "packEntries test"),
             table=[(r"index\s*->\s*local\s*\(\s*\)\s*\.\s*isPublic\s*\(\s*\)", "isPublic")])
 
+
+    # every MPI_Pack call of packEntries packs ONE pair, every MPI_Unpack of unpackIndices takes ONE (the pairs of an
+    # index set do not lie in one array: ArrayList keeps them in separately allocated chunks)
+    def call_args(body, fn):
+        res = []
+        for mm in re.finditer(r"\b%s\s*\(" % fn, body):
+            try:
+                a, _ = paren_arg(body, mm.end() - 1)
+                res.append([x.strip() for x in split_args(a)])
+            except TranslateError as ex:
+                res.append(ex)
+        return res
+    packs = [a[1] if not isinstance(a, Exception) and len(a) == 7 else TranslateError("MPI_Pack call of packEntries") for a in call_args(pack, "MPI_Pack")]
+    g.piece("packCount", "pairs packed by one call: `MPI_Pack(const_cast<PairType*>(&(*index)), 1, type, ...)`",
+            [("n", "I")], "1", first_or_err(packs, "MPI_Pack call of packEntries"), where=lambda v: v["n"] >= 0)
+    unpacks_n = []
+    for ub in unpacks:
+        unpacks_n += [a[4] if not isinstance(a, Exception) and len(a) == 7 else TranslateError("MPI_Unpack call of unpackIndices") for a in call_args(ub, "MPI_Unpack")]
+    g.piece("unpackCount", "pairs taken by one call: `MPI_Unpack(p_in, bufferSize, position, &index, 1, type, comm_)`",
+            [("remoteEntries", "I")], "1", first_or_err(unpacks_n, "MPI_Unpack call of unpackIndices"), expect=5,
+            where=lambda v: v["remoteEntries"] >= 0)
+
+
+    # ---- noPublic: the entry count announced for rebuild<false> ---------------------------------------
+    nopub = one("noPublic")
+    g.piece("countedPublic", "a pair is counted by noPublic(): `if(index->local().isPublic()) noPublic++;`",
+            [("isPublic", "B")], "isPublic",
+            first_or_err([c for (c, after) in if_conditions(nopub) if re.match(r"\s*(noPublic\s*\+\+|\+\+\s*noPublic|noPublic\s*\+=\s*1)\s*;", after)],
+                         "counting test of noPublic"),
+            table=[(r"index\s*->\s*local\s*\(\s*\)\s*\.\s*isPublic\s*\(\s*\)", "isPublic")])
+    g.piece("publishCount", "entries announced for an index set: `(ignorePublic) ? source_->size() : noPublic(*source_)`",
+            [("ignorePublic", "B"), ("size", "I"), ("noPublic", "I")], "ignorePublic ? size : noPublic",
+            first_or_err(find_all(r"sourcePublish\s*=\s*([^;]+);", build)[:1], "sourcePublish") +
+            first_or_err(find_all(r"destPublish\s*=\s*(\(\s*ignorePublic[^;]+);", build)[:1], "destPublish"), expect=2,
+            table=[(r"(source_|target_)\s*->\s*size\s*\(\s*\)", "size"), (r"noPublic\s*\(\s*\*\s*(source_|target_)\s*\)", "noPublic")])
+
     # ---- unpackIndices (single list) -----------------------------------------------------------------
     uconds = if_conditions(unpack1)
     g.piece("keepPair", "a remote index is created: `if(!fromOurSelf || index.local().attribute() != local[localIndex]->local().attribute())`",
@@ -780,7 +816,377 @@ def translate(repo):
     si_params = member_params(src, "setIncludeSelf")
     g.flag("setIncludeSelfAssigns", "setIncludeSelf(b) stores its argument: `includeSelf=b;`",
            unconditional(setincl, r"(this->)?includeSelf=%s" % re.escape(si_params[0])) if (setincl and len(si_params) == 1 and si_params[0]) else None)
-    return [("DuneVerif/Gen/C04.lean", g.text())]
+    return [("DuneVerif/Gen/C04.lean", g.text()), translate_localindex(repo)]
+
+
+# =====================================================================================================================
+# round four: plocalindex.hh / indexset.hh — the ways a local index / an index pair comes into being
+# =====================================================================================================================
+LI_FIELDS = [("localIndex_", "L"), ("attribute_", "A"), ("public_", "B"), ("state_", "S")]
+LI_LEAN = {"localIndex_": "localIndex_", "attribute_": "attribute_", "public_": "public_", "state_": "valid"}
+LI_ZERO = {"L": "0", "A": "0", "B": "false", "S": None}
+CAST_SORT = {"size_t": "L", "std::size_t": "L", "char": None, "bool": "B", "int": "L", "Attribute": "A", "T": "A",
+             "uint32_t": "L", "unsigned": "L", "unsignedint": "L"}
+
+
+def li_param_types(args):
+    """[(name, sort, default text or None)] of a ParallelLocalIndex constructor parameter list"""
+    res = []
+    if not args.strip():
+        return res
+    for a in split_args(args):
+        dflt = None
+        if "=" in a:
+            a, dflt = a.split("=", 1)
+            dflt = dflt.strip()
+        a = a.strip()
+        m = re.search(r"(\w+)\s*$", a)
+        if not m:
+            raise TranslateError("parameter without a name: %r" % a)
+        ty = re.sub(r"\s+", "", a[:m.start()])
+        ty = re.sub(r"^const", "", ty).rstrip("&")
+        if ty in ("size_t", "std::size_t"):
+            so = "L"
+        elif ty in ("T", "Attribute"):
+            so = "A"
+        elif ty == "bool":
+            so = "B"
+        else:
+            raise TranslateError("parameter of unknown type %r" % ty)
+        res.append((m.group(1), so, dflt))
+    return res
+
+
+def li_value(text, env, want):
+    """(lean term, sort) of a member-initialiser / argument expression.  env: C++ name -> (lean term, sort).
+    `want` = sort of the member that is initialised (decides what an empty / value initialisation means)."""
+    t = re.sub(r"\s+", "", text)
+    while t.startswith("(") and t.endswith(")") and paren_arg(t, 0)[1] == len(t):
+        t = t[1:-1]
+    if t == "":
+        if want is None or LI_ZERO.get(want) is None:
+            raise TranslateError("value-initialised state")
+        return LI_ZERO[want], want
+    m = re.fullmatch(r"static_cast<([\w:]+)>\((.*)\)", t)
+    if m and paren_arg(t, t.index("(", len("static_cast")))[1] == len(t):
+        inner, so = li_value(m.group(2), env, CAST_SORT.get(m.group(1)) or want)
+        return inner, (CAST_SORT.get(m.group(1)) or so)
+    m = re.fullmatch(r"([\w:]+)\((.*)\)", t)
+    if m and m.group(1) in CAST_SORT and paren_arg(t, len(m.group(1)))[1] == len(t):
+        so = CAST_SORT[m.group(1)] or want
+        inner, so2 = li_value(m.group(2), env, so)
+        return inner, so
+    if t in env:
+        return env[t]
+    if re.fullmatch(r"\d+", t):
+        if want == "B":
+            return ("true" if int(t) else "false"), "B"
+        return t, ("A" if want == "A" else "L")
+    if t in ("true", "false"):
+        if want in ("L", "A"):
+            return ("1" if t == "true" else "0"), want
+        return t, "B"
+    if t == "VALID":
+        return "true", "S"
+    if t == "DELETED":
+        return "false", "S"
+    raise TranslateError("expression outside the grammar: %r" % text)
+
+
+def li_ctors(src):
+    """[(params, init items, body)] of the out-of-class constructors of ParallelLocalIndex"""
+    res = []
+    for m in re.finditer(r"ParallelLocalIndex\s*<\s*T\s*>::ParallelLocalIndex\s*\(", src):
+        args, j = paren_arg(src, m.end() - 1)
+        k, depth = j, 0
+        while k < len(src):
+            c = src[k]
+            if c == "(":
+                depth += 1
+            elif c == ")":
+                depth -= 1
+            elif c == "{" and depth == 0:
+                break
+            elif c == ";" and depth == 0:
+                k = None
+                break
+            k += 1
+        if k is None or k >= len(src):
+            continue
+        init = src[j:k].strip()
+        items = []
+        if init.startswith(":"):
+            for it in split_args(init[1:]):
+                it = it.strip()
+                mm = re.match(r"([\w:<>]+?)\s*[({]", it)
+                if not mm:
+                    raise TranslateError("member initialiser %r" % it)
+                items.append((re.sub(r"<\s*T\s*>", "", mm.group(1)), it[mm.end():-1]))
+        elif init:
+            raise TranslateError("text between parameter list and body: %r" % init[:40])
+        res.append((args, items, body_after(src, k - 1).strip()))
+    return res
+
+
+def li_eval_ctor(ctors, idx, argvals, depth=0):
+    """field values {member: lean term} of constructor idx called with argument values [(term, sort)]"""
+    if depth > 3:
+        raise TranslateError("delegation cycle")
+    params, items, body = ctors[idx]
+    if body:
+        raise TranslateError("constructor with a non-empty body: %r" % body[:40])
+    env = {}
+    for (name, so, dflt), v in zip(params, argvals):
+        env[name] = v
+    if len(items) == 1 and items[0][0] == "ParallelLocalIndex":
+        args = [a for a in split_args(items[0][1])] if items[0][1].strip() else []
+        # sort of every argument as written
+        vals = []
+        for a in args:
+            a0 = re.sub(r"\s+", "", a)
+            try:
+                want = li_value(a0, env, None)[1]     # the sort the expression has by itself
+            except TranslateError:
+                want = None
+            if want not in ("L", "A", "B"):
+                raise TranslateError("argument of the delegated constructor: %r" % a)
+            vals.append(li_value(a0, env, want))
+        cands = []
+        for k, (ps, _, _) in enumerate(ctors):
+            if len(ps) < len(vals) or k == idx:
+                continue
+            if any(ps[i][1] != vals[i][1] for i in range(len(vals))):
+                continue
+            if any(ps[i][2] is None for i in range(len(vals), len(ps))):
+                continue
+            cands.append(k)
+        if len(cands) != 1:
+            raise TranslateError("delegating constructor: %d candidate targets" % len(cands))
+        ps = ctors[cands[0]][0]
+        full = list(vals) + [li_value(ps[i][2], {}, ps[i][1]) for i in range(len(vals), len(ps))]
+        return li_eval_ctor(ctors, cands[0], full, depth + 1)
+    fields = {}
+    for member, expr in items:
+        so = dict(LI_FIELDS).get(member)
+        if so is None:
+            raise TranslateError("unknown member %r" % member)
+        fields[member] = li_value(expr, env, so)[0]
+    for member, so in LI_FIELDS:
+        if member not in fields:
+            raise TranslateError("member %s not initialised" % member)
+    return fields
+
+
+def li_record(fields):
+    return "{ " + ", ".join("%s := %s" % (LI_LEAN[m], fields[m]) for m, _ in LI_FIELDS) + " }"
+
+
+def li_out_of_class(src, name_rx):
+    """(parameter text, body) of `ParallelLocalIndex<T>::<name>(...)`"""
+    m = re.search(r"ParallelLocalIndex\s*<\s*T\s*>::%s\s*\(" % name_rx, src)
+    if not m:
+        raise TranslateError("%s not located" % name_rx)
+    args, j = paren_arg(src, m.end() - 1)
+    k = src.index("{", j)
+    if src[j:k].strip() not in ("", "const"):
+        raise TranslateError("text before the body of %s" % name_rx)
+    return args, body_after(src, k - 1)
+
+
+def translate_localindex(repo):
+    out = ["-- GENERATED by tools/translators/tr_c04.py from dune/common/parallel/plocalindex.hh and indexset.hh -- do not edit",
+           "namespace DV.C04.GenL", "",
+           "/-- the data members of `ParallelLocalIndex<T>` (`state_` reduced to `== VALID`) -/",
+           "structure LI where",
+           "  localIndex_ : Nat",
+           "  attribute_ : Nat",
+           "  public_ : Bool",
+           "  valid : Bool",
+           "  deriving DecidableEq, Repr, Inhabited", ""]
+    unparsed = []
+    src = strip_comments(open(os.path.join(repo, "dune/common/parallel/plocalindex.hh")).read())
+    canon = {
+        "ctorAP": ("(attr : Nat) (isPublic : Bool)", {"localIndex_": "0", "attribute_": "attr", "public_": "isPublic", "state_": "true"}),
+        "ctorLAP": ("(localIndex : Nat) (attr : Nat) (isPublic : Bool)", {"localIndex_": "localIndex", "attribute_": "attr", "public_": "isPublic", "state_": "true"}),
+        "ctorDefault": ("", {"localIndex_": "0", "attribute_": "0", "public_": "false", "state_": "true"}),
+    }
+    docs = {"ctorAP": "`ParallelLocalIndex(const Attribute& attribute, bool isPublic)`",
+            "ctorLAP": "`ParallelLocalIndex(size_t localIndex, const Attribute& attribute, bool isPublic=true)`",
+            "ctorDefault": "`ParallelLocalIndex()`"}
+    found = {}
+    dflt_public = None
+    try:
+        ctors = [(li_param_types(a), items, body) for (a, items, body) in li_ctors(src)]
+        # default arguments live in the declaration inside the class
+        for m in re.finditer(r"(?<![:\w>])ParallelLocalIndex\s*\(([^()]*(?:\([^()]*\)[^()]*)*)\)\s*;", src):
+            try:
+                ps = li_param_types(m.group(1))
+            except TranslateError:
+                continue
+            for k, (cps, items, body) in enumerate(ctors):
+                if [p[1] for p in cps] == [p[1] for p in ps]:
+                    ctors[k] = ([(cp[0], cp[1], cp[2] if cp[2] is not None else p[2]) for cp, p in zip(cps, ps)], items, body)
+        for k, (ps, items, body) in enumerate(ctors):
+            sorts = "".join(p[1] for p in ps)
+            name = {"AB": "ctorAP", "LAB": "ctorLAP", "": "ctorDefault"}.get(sorts)
+            if name is None:
+                unparsed.append("constructor with parameter sorts %s" % sorts)
+                continue
+            lean_names = {"ctorAP": ["attr", "isPublic"], "ctorLAP": ["localIndex", "attr", "isPublic"], "ctorDefault": []}[name]
+            try:
+                found[name] = li_eval_ctor(ctors, k, [(ln, p[1]) for ln, p in zip(lean_names, ps)])
+                if name == "ctorLAP":
+                    d = ps[2][2]
+                    dflt_public = None if d is None else li_value(d, {}, "B")[0]
+                    if d is None:
+                        dflt_public = "none"
+            except TranslateError as ex:
+                unparsed.append("%s: %s" % (name, str(ex)[:160]))
+    except (TranslateError, ValueError) as ex:
+        unparsed.append("constructors: %s" % str(ex)[:160])
+    for name in ("ctorAP", "ctorLAP", "ctorDefault"):
+        params, cf = canon[name]
+        f = found.get(name)
+        if f is None and not any(u.startswith(name) for u in unparsed):
+            unparsed.append("%s: not located" % name)
+        status = "canonical" if (f is None or f == cf) else "as written in the source"
+        out.append("/-- %s  [%s] -/" % (docs[name], status if f is not None else "not read: canonical"))
+        out.append("def %s %s : LI := %s" % (name, params, li_record(f or cf)))
+    out.append("/-- default argument `isPublic=true` of the three-argument constructor (`none`: no default / not read) -/")
+    out.append("def ctorLAPDefaultIsPublic : Option Bool := %s" %
+               ("none" if dflt_public in (None, "none") else "some " + dflt_public))
+
+    # mutators / getters: straight-line bodies
+    def mutator(name, rx, param_sort, canon_field):
+        try:
+            args, body = li_out_of_class(src, rx)
+            ps = [re.search(r"(\w+)\s*$", a.strip()).group(1) for a in split_args(args)] if args.strip() else []
+            if len(ps) != 1:
+                raise TranslateError("%s: parameter list" % name)
+            upd = {}
+            for st in body.split(";"):
+                st = re.sub(r"\s+", "", st)
+                if st in ("", "return*this"):
+                    continue
+                mm = re.fullmatch(r"(?:this->)?(\w+)=(.+)", st)
+                if not mm or mm.group(1) not in dict(LI_FIELDS):
+                    raise TranslateError("%s: statement %r" % (name, st))
+                so = dict(LI_FIELDS)[mm.group(1)]
+                upd[mm.group(1)] = li_value(mm.group(2), {ps[0]: ("v", param_sort)}, so)[0]
+            return upd
+        except (TranslateError, ValueError, AttributeError) as ex:
+            unparsed.append("%s: %s" % (name, str(ex)[:160]))
+            return {canon_field: "v"}
+
+    for name, rx, so, cfield, doc in (("assignLocal", r"operator\s*=", "L", "localIndex_", "`operator=(size_t index)`"),
+                                      ("setAttribute", r"setAttribute", "A", "attribute_", "`setAttribute(const Attribute& attribute)`")):
+        upd = mutator(name, rx, so, cfield)
+        out.append("/-- %s  [%s] -/" % (doc, "canonical" if upd == {cfield: "v"} else "as written in the source"))
+        out.append("def %s (x : LI) (v : Nat) : LI := { x with %s }" % (name, ", ".join("%s := %s" % (LI_LEAN[k], t) for k, t in sorted(upd.items())))
+                   if upd else "def %s (x : LI) (v : Nat) : LI := x" % name)
+
+    def getter(name, rx, so, cfield, lean_ty):
+        try:
+            args, body = li_out_of_class(src, rx)
+            st = re.sub(r"\s+", "", body).rstrip(";")
+            mm = re.fullmatch(r"return(.+)", st)
+            if args.strip() or not mm:
+                raise TranslateError("%s: body %r" % (name, st[:60]))
+            env = {m: ("x." + LI_LEAN[m], s_) for m, s_ in LI_FIELDS}
+            term = li_value(mm.group(1), env, so)[0]
+        except (TranslateError, ValueError) as ex:
+            unparsed.append("%s: %s" % (name, str(ex)[:160]))
+            term = "x." + LI_LEAN[cfield]
+        out.append("/-- `%s() const`  [%s] -/" % (rx, "canonical" if term == "x." + LI_LEAN[cfield] else "as written in the source"))
+        out.append("def %s (x : LI) : %s := %s" % (name, lean_ty, term))
+
+    getter("getLocal", "local", "L", "localIndex_", "Nat")
+    getter("getAttribute", "attribute", "A", "attribute_", "Nat")
+    getter("isPublic", "isPublic", "B", "public_", "Bool")
+
+    # indexset.hh: IndexPair constructors, setLocal, the two add overloads
+    # preprocessor lines (`#ifndef NDEBUG` ... `#endif` around the state checks) are dropped before the text is flattened
+    isrc = strip_comments(re.sub(r"(?m)^[ \t]*#.*$", "", open(os.path.join(repo, "dune/common/parallel/indexset.hh")).read()))
+    flags = []
+
+    def pair_ctor(nparams):
+        for m in re.finditer(r"IndexPair\s*<\s*TG\s*,\s*TL\s*>::IndexPair\s*\(", isrc):
+            args, j = paren_arg(isrc, m.end() - 1)
+            ps = param_names(args) if args.strip() else []
+            if len(ps) != nparams:
+                continue
+            k = isrc.index("{", j)
+            init = re.sub(r"\s+", "", isrc[j:k])
+            body = body_after(isrc, k - 1).strip()
+            return ps, init, body
+        return None
+
+    # A fact is `some true` for the forms the reader knows, `some false` only if a parameter is not used at all (its
+    # value is dropped) or the statement sits under a condition, and left open (`none`: differential run only) otherwise.
+    def uses(text, name):
+        return re.search(r"(?<![\w.])%s(?!\w)" % re.escape(name), text) is not None
+
+    def fact(known_ok, text, params):
+        if known_ok:
+            return True
+        if any(not uses(text, p_) for p_ in params):
+            return False
+        return None
+
+    c2 = pair_ctor(2)
+    flags.append(("pairCtorCopiesBoth", "`IndexPair(global, local)` stores both arguments",
+                  None if c2 is None else fact(not c2[2] and c2[1] in (":global_(%s),local_(%s)" % tuple(c2[0]), ":local_(%s),global_(%s)" % (c2[0][1], c2[0][0]),
+                                                                         ":global_{%s},local_{%s}" % tuple(c2[0])), c2[1] + c2[2], c2[0])))
+    c1 = pair_ctor(1)
+    c1ok = c1 is not None and not c1[2] and c1[1] in (":global_(%s),local_()" % c1[0][0], ":global_(%s)" % c1[0][0], ":global_{%s},local_{}" % c1[0][0],
+                                                      ":global_(%s),local_(TL())" % c1[0][0], ":global_(%s),local_(LocalIndex())" % c1[0][0])
+    flags.append(("pairCtorGlobalDefaultLocal", "`IndexPair(global)` stores the global index and a default-constructed local index",
+                  None if c1 is None else fact(c1ok, c1[1] + c1[2], c1[0])))
+    m = re.search(r"IndexPair\s*<\s*TG\s*,\s*TL\s*>::setLocal\s*\(", isrc)
+    if m:
+        args, j = paren_arg(isrc, m.end() - 1)
+        ps = param_names(args)
+        st = re.sub(r"\s+", "", body_after(isrc, isrc.index("{", j) - 1))
+        ok = len(ps) == 1 and st in ("local_=%s;" % ps[0], "local_=static_cast<size_t>(%s);" % ps[0], "local_=size_t(%s);" % ps[0],
+                                     "local_=static_cast<std::size_t>(%s);" % ps[0])
+        # anything that constructs a new local index instead of assigning to the old one may lose attribute / flags
+        rebuilt = len(ps) == 1 and re.search(r"local_=(TL|LocalIndex)\(", st) is not None
+        flags.append(("setLocalAssigns", "`IndexPair::setLocal(int index)` assigns to the local index (`operator=(size_t)`)",
+                      False if rebuilt else fact(ok, st, ps)))
+    else:
+        flags.append(("setLocalAssigns", "`IndexPair::setLocal(int index)` assigns to the local index", None))
+    adds = {}
+    for m in re.finditer(r"ParallelIndexSet\s*<\s*TG\s*,\s*TL\s*,\s*N\s*>::add\s*\(", isrc):
+        args, j = paren_arg(isrc, m.end() - 1)
+        ps = param_names(args)
+        body = body_after(isrc, isrc.index("{", j) - 1)
+        adds[len(ps)] = (ps, top_statements(body), body)
+
+    def add_fact(a, call):
+        if a is None:
+            return None
+        ps, sts, body = a
+        if (call, False) in sts:
+            return True
+        if any(t == call and g_ for (t, g_) in sts) or any("newIndices_" in t and g_ for (t, g_) in sts):
+            return False      # the append sits under a condition
+        return fact(False, re.sub(r'"[^"]*"', "", body), ps)
+    a1, a2 = adds.get(1), adds.get(2)
+    flags.append(("addGlobalPushesPair", "`add(global)` appends `IndexPair(global)` to the new indices, unconditionally",
+                  add_fact(a1, "newIndices_.push_back(IndexPair(%s))" % (a1[0][0] if a1 else ""))))
+    flags.append(("addPairPushesPair", "`add(global, local)` appends `IndexPair(global, local)` to the new indices, unconditionally",
+                  add_fact(a2, "newIndices_.push_back(IndexPair(%s,%s))" % (tuple(a2[0]) if a2 else ("", "")))))
+    for name, doc, val in flags:
+        if val is None:
+            unparsed.append("%s: not located / form not known" % name)
+        out.append("/-- %s  [%s] -/" % (doc, "not located / form not known" if val is None else "as found in the source"))
+        out.append("def %s : Option Bool := %s" % (name, "none" if val is None else ("some true" if val else "some false")))
+    out.append("")
+    out.append("/-- pieces the translator could not locate or parse (emitted in canonical form above) -/")
+    out.append("def unparsed : List String := [%s]" % ", ".join('"%s"' % u.replace("\\", "/").replace('"', "'") for u in unparsed))
+    out.append("")
+    out.append("end DV.C04.GenL")
+    return ("DuneVerif/Gen/C04L.lean", "\n".join(out) + "\n")
 
 
 def split_args(s):
